@@ -69,6 +69,20 @@ func c26Check(label string, f *bloom.BloomFilter, entries map[string]bool, rate 
 	if bound > 1 {
 		bound = 1
 	}
+	// at very small rates the expected number of false positives in the universe is far below
+	// one and the normal approximation above is meaningless: the count allowed is the Poisson
+	// quantile (tail below 1e-6) at three times the configured rate
+	if lam := 3 * rate * c26Universe; lam < 50 {
+		term, cdf, c := math.Exp(-lam), 0.0, 0
+		for cdf = term; 1-cdf > 1e-6 && c < 1000; {
+			c++
+			term *= lam / float64(c)
+			cdf += term
+		}
+		if pb := float64(c) / c26Universe; pb > bound {
+			bound = pb
+		}
+	}
 	res.Nontrivial++
 	if obs > bound {
 		sig := "c26-rate:" + kind
@@ -207,6 +221,14 @@ func init() {
 					cs = append(cs, Case{ID: fmt.Sprintf("n%d/p%g/%s", x.n, x.rate, x.p), Run: func() CaseResult { return c26Case(x.n, x.rate, x.p) }})
 				}
 			}
+			// rates far below the usual ones (k = 30 hash functions at 1e-9): sizing must follow the
+			// configured rate, not a floor
+			for _, n := range []int{100, 5000} {
+				for _, rate := range []float64{1e-7, 1e-9, 1e-12} {
+					n, rate := n, rate
+					cs = append(cs, Case{ID: fmt.Sprintf("tiny-rate/n%d/p%g", n, rate), Run: func() CaseResult { return c26Case(n, rate, "flush") }})
+				}
+			}
 			// a shared vocabulary: distinct fields << distinct tokens << distinct field:token pairs
 			for _, n := range []int{10, 300, 4000} {
 				for _, rate := range []float64{0.1, 0.01, 1e-4} {
@@ -232,6 +254,6 @@ func init() {
 			}
 			return cs
 		},
-		Rule: "row shapes: one field and token per row (all three entry kinds have n distinct entries) and a shared vocabulary (4 fields, n tokens, 4n field:token pairs); grid: distinct entries n x rate x producer (flush, merge-rebuilt block, verbatim-copied block) and file level; per filter: (m,k) must equal the textbook optimum for the reference's distinct count, and the measured rate over a fixed universe of 200000 absent entries must stay within 3 x rate + 5 sigma (the repository's own documented tolerance); quick adds three volume cases (1e5 entries at 1e-4 and 1e-3, 1.5e5 at 0.01), thorough the full grid up to 3e5; deterministic given the tree",
+		Rule: "row shapes: one field and token per row (all three entry kinds have n distinct entries) and a shared vocabulary (4 fields, n tokens, 4n field:token pairs); rates from 0.5 down to 1e-12; grid: distinct entries n x rate x producer (flush, merge-rebuilt block, verbatim-copied block) and file level; per filter: (m,k) must equal the textbook optimum for the reference's distinct count, and the measured rate over a fixed universe of 200000 absent entries must stay within 3 x rate + 5 sigma (the repository's own documented tolerance); quick adds three volume cases (1e5 entries at 1e-4 and 1e-3, 1.5e5 at 0.01), thorough the full grid up to 3e5; deterministic given the tree",
 	}
 }
